@@ -194,9 +194,13 @@ func (e *Eth) bal(token, holder [20]byte) *big.Int {
 }
 
 // Mint gives a user external tokens to deposit (test faucet; outside the bridge).
-func (e *Eth) Mint(token, holder [20]byte, amt *big.Int) { e.bal(token, holder).Add(e.bal(token, holder), amt) }
+func (e *Eth) Mint(token, holder [20]byte, amt *big.Int) {
+	e.bal(token, holder).Add(e.bal(token, holder), amt)
+}
 
-func (e *Eth) BalanceOf(token, holder [20]byte) *big.Int { return new(big.Int).Set(e.bal(token, holder)) }
+func (e *Eth) BalanceOf(token, holder [20]byte) *big.Int {
+	return new(big.Int).Set(e.bal(token, holder))
+}
 
 // Custody is what the contract holds of a token.
 func (e *Eth) Custody(token [20]byte) *big.Int { return e.BalanceOf(token, e.ContractAddr) }
